@@ -3,7 +3,7 @@
    for every linear-solver choice that returns a solution of the system (uniqueness).  That the articulated-body
    routine and M^-1 (tau - N) reproduce tau through InverseDynamics is decided by the residual oracle. *)
 From Coq Require Import List.
-From RV Require Import Scalar Laws ListArr LinDef LinThm ModelDef DynDef ConsDef ConsThm.
+From RV Require Import Scalar Laws ListArr LinDef LinThm ModelDef DynDef ConsDef ConsThm DimThm.
 Import ListNotations.
 Section P.
   Context {T : Type} (O : Ops T) {FL : FieldLaws O}.
@@ -20,6 +20,12 @@ Section P.
     intros WA Lb S Ly E. apply (solve_pp_unique O oeqb_spec n A b x y WA Lb S Ly).
     apply (Sol_mvmul O n A b y (proj1 WA) Lb). exact E.
   Qed.
+  Theorem C02_lagrangian_route_solves_equation_of_motion_any_model (M : @Model T) (w : @WS T) q qd tau fext w' qdd Hm C :
+    length tau = dof_count M ->
+    forward_dynamics_lagrangian O M w q qd tau fext = (w', Some qdd, Hm, C) ->
+    vadd O (mvmul O Hm qdd) C = tau.
+  Proof. exact (fd_lagrangian_solves_sized O oeqb_spec M w q qd tau fext w' qdd Hm C). Qed.
 End P.
 Print Assumptions C02_lagrangian_route_solves_equation_of_motion.
 Print Assumptions C02_linear_solvers_agree.
+Print Assumptions C02_lagrangian_route_solves_equation_of_motion_any_model.
